@@ -677,14 +677,22 @@ def book_features():
     F["empty-row"] = [("S" + v(), [[v(), v()], ["", ""], [v(), v()]])]
     F["multi-word-cell"] = [("S" + v(), [[v() + " " + v(), v()], [v(), v()]])]
     F["cell-comment"] = [("S" + v(), [[v(), v()], [v(), v()]], {(1, 1): x("COM")})]
+    # falsy values are values: a closing row of zeros / FALSE is content (cell = (python value, ods value-type, ods value, expected text))
+    zero, false = (0, "float", "0", "0"), (False, "boolean", "false", None)
+    F["zero-and-false-last-row"] = [("S" + v(), [[v(), v()], [v(), (7, "float", "7", "7")], [zero, false]])]
+    F["zero-rows-inside"] = [("S" + v(), [[v(), v()], [zero, zero], [v(), v()]])]
     return F
 
 
-def book_spec(sheets):
+def book_spec(sheets, fmt="xlsx"):
+    def shown(c):
+        if isinstance(c, tuple):
+            return c[3] if c[3] is not None else (str(c[0]) if fmt == "xlsx" else c[2])
+        return c
     out = []
     for sh in sheets:
         out.append(sh[0])
-        out.extend(" ".join(c for c in row) for row in sh[1])
+        out.extend(" ".join(shown(c) for c in row) for row in sh[1])
     return "\n".join(out)
 
 
@@ -698,7 +706,7 @@ def render_xlsx(sheets):
         for r, row in enumerate(sh[1], 1):
             for c, val in enumerate(row, 1):
                 if val != "":
-                    ws.cell(row=r, column=c, value=val)
+                    ws.cell(row=r, column=c, value=val[0] if isinstance(val, tuple) else val)
         for (r, c), text in (sh[2] if len(sh) > 2 else {}).items():
             ws.cell(row=r + 1, column=c + 1).comment = Comment(text, "a")
     b = io.BytesIO()
@@ -716,6 +724,10 @@ def render_ods(sheets):
             cells = ""
             for c, val in enumerate(row):
                 ann = f"<office:annotation><dc:creator>a</dc:creator><text:p>{com[(r, c)]}</text:p></office:annotation>" if (r, c) in com else ""
+                if isinstance(val, tuple):
+                    attr = {"boolean": "boolean-value"}.get(val[1], "value")
+                    cells += f'<table:table-cell office:value-type="{val[1]}" office:{attr}="{val[2]}">{ann}<text:p>{val[2].upper()}</text:p></table:table-cell>'
+                    continue
                 cells += (f'<table:table-cell office:value-type="string">{ann}<text:p>{val}</text:p></table:table-cell>' if val != "" else f"<table:table-cell>{ann}</table:table-cell>")
             rows += f"<table:table-row>{cells}</table:table-row>"
         tabs.append(f'<table:table table:name="{sh[0]}">{rows}</table:table>')
@@ -753,7 +765,7 @@ def run_documents(formats=None):
             jobs.append((fmt, feat, mod, fn, (lambda render=render, slides=slides: render(slides)), deck_spec(slides, tit), repr(slides)))
     for fmt, (mod, fn, render) in BOOKS.items():
         for feat, sheets in book_features().items():
-            jobs.append((fmt, feat, mod, fn, (lambda render=render, sheets=sheets: render(sheets)), book_spec(sheets), repr(sheets)))
+            jobs.append((fmt, feat, mod, fn, (lambda render=render, sheets=sheets: render(sheets)), book_spec(sheets, fmt), repr(sheets)))
     for fmt, feat, mod, fn, mk, spec, model in jobs:
         if formats and fmt not in formats:
             continue
